@@ -46,13 +46,13 @@ Outcomes == {"addSuccess", "addError", "addFailure", "addSkip", "addExpectedFail
 RunLevel == {"startTestRun", "stopTestRun", "stop", "done", "shouldStop"}
 
 \* work[t] is a sequence of items  [kind, out, gt, xt]:
-\*   kind = "test": report one test with outcome `out`; gt = tags() given before startTest (global scope),
+\*   kind = "test": report one test with outcome `out`, explicit times st / en; gt = tags() given before startTest (global scope),
 \*                  xt = tags() given after startTest (test scope); NoTags = no such call
 \*   kind \in RunLevel: that call on the forwarder
-\* Test (t, i) has id 100t+10i, explicit start time id+1 and explicit end time id+2.
+\* Test (t, i) has id 100t+10i.  Its explicit start / end times are the item's fields st / en (small naturals from
+\* a tiny alphabet: consecutive tests of a thread may have EQUAL times, e.g. start(i+1) = end(i)); 0 stands for the
+\* default, unique times id+1 / id+2.
 Id(t, i)     == 100 * t + 10 * i
-StartT(t, i) == Id(t, i) + 1
-EndT(t, i)   == Id(t, i) + 2
 
 VARIABLES
     work,       \* frozen: sequence (indexed by thread) of sequences of items
@@ -71,6 +71,8 @@ VARIABLES
 vars == <<work, faults, pc, idx, buf, sem, tlog, ncalls, exc, completed, raisedAt, hist>>
 
 Threads == DOMAIN work
+StartT(t, i) == IF work[t][i].st = 0 THEN Id(t, i) + 1 ELSE work[t][i].st
+EndT(t, i)   == IF work[t][i].en = 0 THEN Id(t, i) + 2 ELSE work[t][i].en
 
 AnyTags(p) == p.n # {} \/ p.g # {}
 \* real.py _merge_tags
@@ -204,9 +206,8 @@ Fairness == \A t \in 1..4 : WF_vars(t \in Threads /\ Step(t))
 (* MEANING of C12, over what the target saw                                 *)
 
 IsOutcome(e) == e.call \in Outcomes
-\* the test an entry is about (0: none): ids and the two explicit times of a test share the decade
-About(e) == IF e.call \in {"startTest", "stopTest"} \cup Outcomes THEN e.v
-            ELSE IF e.call = "time" THEN e.v - (e.v % 10) ELSE 0
+\* the test an entry is about (0: none - time and tags calls carry no test; where they belong is fixed by BlockShape)
+About(e) == IF e.call \in {"startTest", "stopTest"} \cup Outcomes THEN e.v ELSE 0
 OwnerOf(d) == d \div 100
 IndexOf(d) == (d % 100) \div 10
 Shape(e) == <<e.call, e.v, e.tg>>
